@@ -201,6 +201,9 @@ class CharAttr:
   underline: bool = False
   color: typing.Optional[tuple] = None      # RGBA or None (no colour markup in effect)
   bg: typing.Optional[tuple] = None
+  # markup that only restates a default (every colour tag in effect says opaque white / every background class is fully
+  # transparent): tags must enclose exactly the characters whose computed style DIFFERS from the defaults
+  redundant: tuple = dataclasses.field(default=(), compare=False)
 
 
 def _hex_rgba(s):
@@ -245,17 +248,27 @@ def _attr_from_stack(stack):
   under = any(s[0] == "u" for s in stack)
   color = None
   bg = None
+  colors, bgs = [], []
   for s in stack:
     if s[0] == "font":
       color = s[1]
+      colors.append(tuple(s[1]))
     elif s[0] == "c":
       for kind, val in s[1]:
         if kind == "color":
           color = val
-        elif val[3] != 0:
-          # every element paints its own background over its ancestors': a fully transparent one leaves the ancestor's visible
-          bg = val
-  return CharAttr(bold, italic, under, color, bg)
+          colors.append(tuple(val))
+        else:
+          bgs.append(tuple(val))
+          if val[3] != 0:
+            # every element paints its own background over its ancestors': a fully transparent one leaves the ancestor's visible
+            bg = val
+  red = []
+  if colors and all(c == (255, 255, 255, 255) for c in colors):
+    red.append("color")
+  if bgs and all(b == (0, 0, 0, 0) for b in bgs):
+    red.append("background")
+  return CharAttr(bold, italic, under, color, bg, tuple(red))
 
 
 def _css_color(v: str):
@@ -360,8 +373,16 @@ def _span_attr(node: refisd.RefNode):
     anc[1] = anc[1] or p.styles["FontStyle"][0][2] == "italic"
     anc[2] = anc[2] or dfield(p.styles["TextDecoration"][0], "underline") is True
     p = getattr(p, "_parent", None)
+  # is the colour the default (opaque white) on the whole inheritance chain?  Only then is colour markup around the text redundant
+  chain_default = True
+  p = node
+  while p is not None:
+    if tuple(p.styles["Color"][0][1]) != (255, 255, 255, 255):
+      chain_default = False
+      break
+    p = getattr(p, "_parent", None)
   return CharAttr(bold=fw[2] == "bold", italic=fs[2] == "italic", underline=dfield(td, "underline") is True,
-                  color=tuple(col[1]), bg=bg), (fs[2] == "oblique", tuple(anc))
+                  color=tuple(col[1]), bg=bg, redundant=("chain-default",) if chain_default else ()), (fs[2] == "oblique", tuple(anc))
 
 
 def flatten_region(region: refisd.RefNode):
